@@ -882,13 +882,18 @@ pub fn simplify_solution(sol: &Value) -> Value {
 
 /// derives consistent relations from a solved tour (as the documentation requires)
 pub fn derive_relations(sp: &SProblem, sol: &Value, rseed: u64) -> Vec<SRelation> {
+    derive_relations_opts(sp, sol, rseed, false)
+}
+
+/// `full`: every tour gets a sequence / strict relation that repeats its whole supported prefix (all its reloads included)
+pub fn derive_relations_opts(sp: &SProblem, sol: &Value, rseed: u64, full: bool) -> Vec<SRelation> {
     let mut rng = Rng::derived(rseed);
     let mut rels = vec![];
     let single_place = |id: &str| {
         sp.jobs.iter().find(|j| j.id == id).is_some_and(|j| j.tasks.iter().all(|t| t.places.len() == 1 && t.places[0].tws.len() <= 1) && j.tasks.len() == 1)
     };
     for t in sol["tours"].as_array().unwrap().iter() {
-        if !rng.chance(1, 2) {
+        if !full && !rng.chance(1, 2) {
             continue;
         }
         let ids: Vec<String> = t["stops"]
@@ -898,7 +903,7 @@ pub fn derive_relations(sp: &SProblem, sol: &Value, rseed: u64) -> Vec<SRelation
             .flat_map(|s| s["activities"].as_array().unwrap().iter())
             .map(|a| a["jobId"].as_str().unwrap().to_string())
             .collect();
-        let kind = *rng.pick(&["any", "sequence", "strict"]);
+        let kind = if full { *rng.pick(&["sequence", "strict"]) } else { *rng.pick(&["any", "sequence", "strict"]) };
         // NOTE jobs of a relation are not checked for constraint violations (documented): a consistent relation
         // repeats a prefix of a feasible tour, in tour order, from the departure on, up to the first break or job
         // that relations do not support; reloads are listed for sequence/strict, `any` stops before the first reload
@@ -915,7 +920,7 @@ pub fn derive_relations(sp: &SProblem, sol: &Value, rseed: u64) -> Vec<SRelation
             }
             prefix.push(id.clone());
         }
-        let keep = rng.usize(1, prefix.len().max(1));
+        let keep = if full { prefix.len() } else { rng.usize(1, prefix.len().max(1)) };
         prefix.truncate(keep.max(2).min(prefix.len()));
         while prefix.last().is_some_and(|id| id == "reload") {
             prefix.pop();
